@@ -131,7 +131,7 @@ check(
 
 check(
     "C19",
-    "Hypothesis-generated input modules / JSON-schema files / directories x parse kind x 8 emit kinds x name templates x import inference x prepend x existing-output, through the gen CLI entry; compile, names == __all__ == templated names, per-symbol re-parse, import-closure and no-clobber oracles",
+    "Hypothesis-generated input modules / JSON-schema files / directories x parse kind x 8 emit kinds x name templates x import inference x prepend x existing-output, through the gen CLI entry; compile, names == __all__ == templated names, per-symbol re-parse, import-closure and no-clobber oracles; metamorphic layer: `--parse infer` writes the same bytes as the explicit `--parse sqlalchemy` on SQLAlchemy models with varied base-class lists",
     "Generated-input search over the gen configuration matrix and multi-symbol inputs (also modules mixing classes, plain functions and argparse functions under --parse infer): the output must compile, define exactly the templated names and list exactly those in __all__, each generated symbol parsed back must have the interface of its source entry (C02/C03 normalisations), every typing name used must be imported when inference is on, __future__ imports first; on an existing output file gen must refuse and leave bytes and mtime untouched.",
     "P17d (sqlalchemy kinds with a non-identity template define the un-templated name) relaxes only the defined-names / re-parse clauses for those cells; JSON-schema files and directories of files ARE generated as inputs; SQLAlchemy-class and Table *inputs* are not (P37).",
 )
